@@ -41,6 +41,129 @@ struct RcStruct {
     f4: Option<RcField>,
 }
 
+/// nested sharing: nodes own strong / weak references to other nodes (a DAG), so a shared node can be defined inside
+/// another anchored node and be referenced again after that outer node is complete
+#[derive(Serialize, Deserialize)]
+struct RcNd {
+    id: usize,
+    kids: Vec<RcRef>,
+}
+#[derive(Serialize, Deserialize)]
+enum RcRef {
+    S(RcAnchor<RcNd>),
+    W(RcWeakAnchor<RcNd>),
+}
+#[derive(Serialize, Deserialize)]
+struct ArcNd {
+    id: usize,
+    kids: Vec<ArcRef>,
+}
+#[derive(Serialize, Deserialize)]
+enum ArcRef {
+    S(ArcAnchor<ArcNd>),
+    W(ArcWeakAnchor<ArcNd>),
+}
+/// kid lists per allocation (index 0 = the root list); entries (weak?, target allocation >= 1); targets of allocation a are < a
+type DagSpec = Vec<Vec<(bool, usize)>>;
+fn gen_dag(rng: &mut Rng) -> DagSpec {
+    let n = 2 + rng.below(5);
+    let mut spec: DagSpec = vec![vec![]; n + 1];
+    for a in 2..=n {
+        for _ in 0..rng.below(3) {
+            spec[a].push((false, 1 + rng.below(a - 1)));
+        }
+    }
+    for _ in 0..1 + rng.below(4) {
+        spec[0].push((false, 1 + rng.below(n)));
+    }
+    spec
+}
+/// the edge list in serialization (depth-first) order, children visited at the first sight of an allocation; weak edges
+/// are added only to allocations already seen
+fn dag_edges(spec: &DagSpec, rng: &mut Rng) -> (Vec<FieldSpec>, DagSpec) {
+    let mut spec = spec.clone();
+    let mut seen: Vec<usize> = vec![];
+    let mut out: Vec<FieldSpec> = vec![];
+    fn visit(list: usize, spec: &mut DagSpec, seen: &mut Vec<usize>, out: &mut Vec<FieldSpec>, rng: &mut Rng) {
+        let mut k = 0;
+        while k < spec[list].len() {
+            let (weak, t) = spec[list][k];
+            out.push(FieldSpec { k: if weak { "W".into() } else { "S".into() }, n: t });
+            if !weak && !seen.contains(&t) {
+                seen.push(t);
+                visit(t, spec, seen, out, rng);
+            }
+            // now and then a weak edge to something already complete
+            // (only to allocations that are complete: numbered below the one that holds the edge)
+            let done: Vec<usize> = seen.iter().cloned().filter(|x| list == 0 || *x < list).collect();
+            if !done.is_empty() && rng.chance(1, 5) {
+                let w = *rng.pick(&done);
+                spec[list].insert(k + 1, (true, w));
+                out.push(FieldSpec { k: "W".into(), n: w });
+                k += 1;
+            }
+            k += 1;
+        }
+    }
+    visit(0, &mut spec, &mut seen, &mut out, rng);
+    (out, spec)
+}
+fn build_rc(spec: &DagSpec) -> Vec<RcRef> {
+    let mut allocs: Vec<Option<Rc<RcNd>>> = vec![None; spec.len()];
+    fn mk(a: usize, spec: &DagSpec, allocs: &mut Vec<Option<Rc<RcNd>>>) -> Rc<RcNd> {
+        if let Some(x) = &allocs[a] { return x.clone(); }
+        let kids = spec[a].iter().map(|(weak, t)| { let r = mk(*t, spec, allocs); if *weak { RcRef::W(RcWeakAnchor(Rc::downgrade(&r))) } else { RcRef::S(RcAnchor(r)) } }).collect();
+        let n = Rc::new(RcNd { id: a, kids });
+        allocs[a] = Some(n.clone());
+        n
+    }
+    spec[0].iter().map(|(weak, t)| { let r = mk(*t, spec, &mut allocs); if *weak { RcRef::W(RcWeakAnchor(Rc::downgrade(&r))) } else { RcRef::S(RcAnchor(r)) } }).collect()
+}
+fn build_arc(spec: &DagSpec) -> Vec<ArcRef> {
+    let mut allocs: Vec<Option<Arc<ArcNd>>> = vec![None; spec.len()];
+    fn mk(a: usize, spec: &DagSpec, allocs: &mut Vec<Option<Arc<ArcNd>>>) -> Arc<ArcNd> {
+        if let Some(x) = &allocs[a] { return x.clone(); }
+        let kids = spec[a].iter().map(|(weak, t)| { let r = mk(*t, spec, allocs); if *weak { ArcRef::W(ArcWeakAnchor(Arc::downgrade(&r))) } else { ArcRef::S(ArcAnchor(r)) } }).collect();
+        let n = Arc::new(ArcNd { id: a, kids });
+        allocs[a] = Some(n.clone());
+        n
+    }
+    spec[0].iter().map(|(weak, t)| { let r = mk(*t, spec, &mut allocs); if *weak { ArcRef::W(ArcWeakAnchor(Arc::downgrade(&r))) } else { ArcRef::S(ArcAnchor(r)) } }).collect()
+}
+fn ptrs_rc(list: &[RcRef], seen: &mut Vec<usize>, out: &mut Vec<usize>) {
+    for r in list {
+        match r {
+            RcRef::S(a) => { let p = Rc::as_ptr(&a.0) as usize; out.push(p); if !seen.contains(&p) { seen.push(p); ptrs_rc(&a.0.kids, seen, out); } }
+            RcRef::W(w) => out.push(w.0.upgrade().map(|x| Rc::as_ptr(&x) as usize).unwrap_or(0)),
+        }
+    }
+}
+fn ptrs_arc(list: &[ArcRef], seen: &mut Vec<usize>, out: &mut Vec<usize>) {
+    for r in list {
+        match r {
+            ArcRef::S(a) => { let p = Arc::as_ptr(&a.0) as usize; out.push(p); if !seen.contains(&p) { seen.push(p); ptrs_arc(&a.0.kids, seen, out); } }
+            ArcRef::W(w) => out.push(w.0.upgrade().map(|x| Arc::as_ptr(&x) as usize).unwrap_or(0)),
+        }
+    }
+}
+fn dag_round_trip(spec: &DagSpec, flavor: &str) -> (String, Vec<i64>, String) {
+    if flavor == "rc" {
+        let g = build_rc(spec);
+        let text = match serde_saphyr::to_string(&g) { Ok(t) => t, Err(e) => return (String::new(), vec![-1], format!("ser: {e}")) };
+        match serde_saphyr::from_str::<Vec<RcRef>>(&text) {
+            Ok(back) => { let (mut seen, mut out) = (vec![], vec![]); ptrs_rc(&back, &mut seen, &mut out); (text, classes(&out), String::new()) }
+            Err(e) => (text, vec![-1], format!("de: {e}")),
+        }
+    } else {
+        let g = build_arc(spec);
+        let text = match serde_saphyr::to_string(&g) { Ok(t) => t, Err(e) => return (String::new(), vec![-1], format!("ser: {e}")) };
+        match serde_saphyr::from_str::<Vec<ArcRef>>(&text) {
+            Ok(back) => { let (mut seen, mut out) = (vec![], vec![]); ptrs_arc(&back, &mut seen, &mut out); (text, classes(&out), String::new()) }
+            Err(e) => (text, vec![-1], format!("de: {e}")),
+        }
+    }
+}
+
 #[derive(Serialize)]
 struct Rec<'a> {
     id: String,
@@ -299,6 +422,23 @@ pub fn run(args: &Args) -> i32 {
             let want: Vec<i64> = ups.iter().map(|u| if *u == usize::MAX { -1 } else { *u as i64 }).collect();
             stats.nontrivial += 1;
             w.put(&Rec { id: format!("chain{len}-{ci}"), kind: "chain", fields: serde_json::json!(want), flavor: "rc", container: "chain", text, after, err });
+        }
+    }
+    // nested sharing (DAGs of nodes holding strong / weak references to other nodes)
+    let ndag = args.num("dags", 200);
+    for i in 0..ndag {
+        let spec0 = gen_dag(&mut rng);
+        let (edges, spec) = dag_edges(&spec0, &mut rng);
+        let nested_shared = edges.iter().enumerate().any(|(a, f)| f.k == "S" && edges.iter().skip(a + 1).any(|g| g.n == f.n));
+        if nested_shared { stats.nontrivial += 1; }
+        let fields_json = serde_json::json!(edges.iter().map(|f| serde_json::json!({"k": f.k, "n": f.n})).collect::<Vec<_>>());
+        for flavor in ["rc", "arc"] {
+            let sp = spec.clone();
+            let fl = flavor.to_string();
+            let r = guarded(move || dag_round_trip(&sp, &fl));
+            let (text, after, err) = r.unwrap_or_else(|p| (String::new(), vec![-9], format!("PANIC:{p}")));
+            if stats.samples.len() < 4 && nested_shared && flavor == "rc" && text.len() < 400 { stats.samples.push(serde_json::json!({"dag": fields_json, "yaml": text})); }
+            w.put(&Rec { id: format!("dag{i}-{flavor}"), kind: "graph", fields: fields_json.clone(), flavor, container: "dag", text, after, err });
         }
     }
     stats.records = w.n;
